@@ -24,7 +24,7 @@ use ironcalc_base::expressions::token::Error;
 use ironcalc_base::expressions::types::Area;
 use ironcalc_base::types::{ArrayKind, Cell, FormulaValue};
 use ironcalc_base::{Model, UserModel};
-use std::collections::BTreeMap;
+use std::collections::{BTreeMap, HashSet};
 
 const LAST_ROW: i32 = 1_048_576;
 const LAST_COLUMN: i32 = 16_384;
@@ -68,6 +68,12 @@ fn cell_at<'a>(m: &'a Model<'_>, r: i32, c: i32) -> Option<&'a Cell> {
 
 /// the spill invariant, checked on the real sheet
 fn check_invariant(m: &Model, fails: &mut Vec<(String, String)>) {
+    check_invariant_with(m, fails, &HashSet::new())
+}
+
+/// `cse_children`: the positions that some accepted fixed-range (CSE) array entry of the history
+/// covered as a non-anchor cell of its range (they were overwritten by that entry)
+fn check_invariant_with(m: &Model, fails: &mut Vec<(String, String)>, cse_children: &HashSet<(i32, i32)>) {
     for ((r, c), cell) in sorted_cells(m) {
         match cell {
             Cell::SpillCell { a, .. } => match cell_at(m, a.0, a.1) {
@@ -80,10 +86,22 @@ fn check_invariant(m: &Model, fails: &mut Vec<(String, String)>) {
                         ));
                     }
                 }
-                _ => fails.push((
-                    "c31:inv:spill-without-anchor".into(),
-                    format!("{} is a spill cell of {} which is not an array formula", a1(r, c), a1(a.0, a.1)),
-                )),
+                other => {
+                    // the recorded anchor position now belongs to a fixed-range (CSE) array: the array
+                    // formula that spilled here was overwritten by that array (finding F31b)
+                    let under_cse = match other {
+                        Some(Cell::SpillCell { a: a2, .. }) => {
+                            matches!(cell_at(m, a2.0, a2.1), Some(Cell::ArrayFormula { kind: ArrayKind::Cse, .. }))
+                        }
+                        _ => false,
+                    };
+                    let sig = if under_cse || cse_children.contains(&a) {
+                        "c31:inv:spill-without-anchor:anchor-overwritten-by-cse-array"
+                    } else {
+                        "c31:inv:spill-without-anchor"
+                    };
+                    fails.push((sig.into(), format!("{} is a spill cell of {} which is not an array formula", a1(r, c), a1(a.0, a.1))));
+                }
             },
             Cell::ArrayFormula { r: (w, h), kind: ArrayKind::Dynamic, .. } => {
                 if w < 1 || h < 1 || r + h - 1 > LAST_ROW || c + w - 1 > LAST_COLUMN {
@@ -257,6 +275,7 @@ fn eval_hist(req: &str) -> ImplOut {
     let mut tags: Vec<String> = vec![];
     let mut n_spilled = 0;
     let mut n_err = 0;
+    let mut cse_children: HashSet<(i32, i32)> = HashSet::new();
     for op in ops.split(';') {
         let p: Vec<&str> = op.split('.').collect();
         match p[0] {
@@ -272,10 +291,26 @@ fn eval_hist(req: &str) -> ImplOut {
                     tags.push("kind:dynamic-formula-not-recognised".into());
                 }
             }
+            "A" => {
+                let n = |i: usize| -> i32 { p.get(i).and_then(|x| x.parse().ok()).unwrap_or(1) };
+                let text = p.get(5).and_then(|x| unhex(x)).unwrap_or_default();
+                if m.set_user_array_formula(0, n(1), n(2), n(3), n(4), &text).is_err() {
+                    tags.push("edit:refused".into());
+                } else {
+                    for r in n(1)..n(1) + n(4) {
+                        for c in n(2)..n(2) + n(3) {
+                            if (r, c) != (n(1), n(2)) {
+                                cse_children.insert((r, c));
+                            }
+                        }
+                    }
+                }
+                tags.push("op:cse-array".into());
+            }
             "E" => {
                 m.evaluate();
                 dumps.push(dump(&m));
-                check_invariant(&m, &mut fails);
+                check_invariant_with(&m, &mut fails, &cse_children);
                 check_exact(&m, &mut fails);
                 check_stable(&m, &mut fails);
                 // #SPILL! exactly when the natural block is blocked or leaves the grid
@@ -295,7 +330,7 @@ fn eval_hist(req: &str) -> ImplOut {
                             None => continue,
                         };
                         let stored = match &cell {
-                            Cell::ArrayFormula { r: (w, h), .. } => (*h, *w),
+                            Cell::ArrayFormula { r: (w, h), kind: ArrayKind::Dynamic, .. } => (*h, *w),
                             _ => continue,
                         };
                         let out_of_grid = r + h - 1 > LAST_ROW || c + w - 1 > LAST_COLUMN;
@@ -531,6 +566,57 @@ fn gen_history(rng: &mut Rng, user: bool) -> String {
     ops.join(";")
 }
 
+/// histories in which fixed-range (CSE) array formulas and dynamic ones are entered over each other,
+/// with and without an evaluation in between.  Every formula reads column A only, so evaluation
+/// order is natural order (dynamic anchors in phase 1, CSE anchors in phase 2).
+fn gen_history_cse(rng: &mut Rng) -> String {
+    let mut ops: Vec<String> = vec![];
+    let mut inputs = [0i32; 7];
+    let mut anchors: BTreeMap<(i32, i32), Tpl> = BTreeMap::new();
+    for k in 1..=6 {
+        inputs[k] = rng.range(1, 3) as i32;
+        ops.push(format!("P.{k}.1.{}", hex(&inputs[k].to_string())));
+    }
+    let spec = |anchors: &BTreeMap<(i32, i32), Tpl>, inputs: &[i32; 7]| -> String {
+        let v: Vec<String> = anchors.iter().map(|(k, t)| format!("{},{},{}", k.0, k.1, shape_spec(t, inputs))).collect();
+        if v.is_empty() { "-".to_string() } else { v.join("_") }
+    };
+    let n = rng.range(8, 24);
+    for _ in 0..n {
+        let at = (rng.range(1, 5) as i32, rng.range(2, 6) as i32);
+        match rng.below(10) {
+            0 | 1 | 2 => {
+                let t = match rng.below(3) {
+                    0 => Tpl::Seq(rng.range(1, 3) as i32, rng.range(1, 3) as i32),
+                    1 => Tpl::SeqOfInput(rng.range(1, 6) as i32, rng.chance(1, 2)),
+                    _ => {
+                        let a = rng.range(1, 4) as i32;
+                        Tpl::RangeTimes(a, a + rng.range(0, 2) as i32)
+                    }
+                };
+                ops.push(format!("D.{}.{}.{}", at.0, at.1, hex(&tpl_text(&t))));
+                anchors.insert(at, t);
+            }
+            3 | 4 | 5 => {
+                let (w, h) = (rng.range(1, 3), rng.range(1, 3));
+                let text = if rng.chance(1, 2) { format!("=SEQUENCE({h},{w})") } else { "=A1:A2*2".to_string() };
+                ops.push(format!("A.{}.{}.{w}.{h}.{}", at.0, at.1, hex(&text)));
+            }
+            6 => {
+                ops.push(format!("P.{}.{}.{}", at.0, at.1, hex(&rng.range(10, 99).to_string())));
+                anchors.remove(&at);
+            }
+            7 => {
+                ops.push(format!("X.{}.{}", at.0, at.1));
+                anchors.remove(&at);
+            }
+            _ => ops.push(format!("E.{}", spec(&anchors, &inputs))),
+        }
+    }
+    ops.push(format!("E.{}", spec(&anchors, &inputs)));
+    ops.join(";")
+}
+
 fn gen_hist(ctx: &Ctx, sink: &mut dyn FnMut(String)) {
     // corpus: grow / shrink / block / unblock / spill feeding a spill / out of grid
     let h = |s: &str| hex(s);
@@ -545,10 +631,18 @@ fn gen_hist(ctx: &Ctx, sink: &mut dyn FnMut(String)) {
         h("2"), h("=SEQUENCE(1,A1)"), h("=SEQUENCE(3,1)"), h("1")
     ));
     let mut rng = Rng::new(ctx.seed ^ 0xC31);
+    // F31b: a dynamic formula typed into a not yet evaluated CSE range, and a CSE range entered over a
+    // dynamic anchor that has spilled
+    sink(format!("c31 hist A.1.1.2.2.{};D.2.2.{};E.2,2,2,1", h("=SEQUENCE(2,2)"), h("=SEQUENCE(2,1)")));
+    sink(format!("c31 hist D.2.2.{};E.2,2,2,1;A.1.1.2.2.{};E.2,2,2,1", h("=SEQUENCE(2,1)"), h("=SEQUENCE(2,2)")));
     let count = if ctx.tier == Tier::Quick { 300 } else { 20_000 };
     for _ in 0..count {
         let mut r = rng.fork();
         sink(format!("c31 hist {}", gen_history(&mut r, false)));
+    }
+    for _ in 0..count / 3 {
+        let mut r = rng.fork();
+        sink(format!("c31 hist {}", gen_history_cse(&mut r)));
     }
 }
 
